@@ -1771,6 +1771,32 @@ void tailStarProbe(Reporter& rep, Env& env) {
                                  "seed=" + std::to_string(env.seed) + " keyword=" + name + " record=" + std::to_string(tb.lines[li].rec) + " scalar_items=" + std::to_string(N) + " explicit=" + std::to_string(j) +
                                  " run=" + std::to_string(open + e) + " a={" + rec + "/} b=written_out " + c.detail + " a_hex=" + hexTrunc(txt) + " b_hex=" + hexTrunc(ref));
                     }
+                    // the same with a repeated VALUE as the last token, n*v against v written n times, where one
+                    // literal suits every item the run covers
+                    {
+                        bool allNum = true, allStr = true;
+                        const long upto = spill ? N + 1 : N;
+                        for (long i = j; i < upto; ++i) {
+                            const auto ty = pr.get((size_t) i).dataType();
+                            if (ty == type_tag::string) allNum = false;
+                            else if (ty == type_tag::integer || ty == type_tag::fdouble || ty == type_tag::uda) allStr = false;
+                            else allNum = allStr = false;
+                        }
+                        const std::string lit = j >= upto ? "" : allNum ? "3" : allStr ? "'S'" : "";
+                        if (!lit.empty()) {
+                            auto ta = vals; ta.push_back(std::to_string(open + e) + "*" + lit);
+                            auto tb2 = vals; for (long k = 0; k < open + e; ++k) tb2.push_back(lit);
+                            const std::string txa = render(li, ta), txb = render(li, tb2);
+                            Outcome oa = parseText(txa), ob = parseText(txb);
+                            LayoutCmp c = compareOutcomes(oa, ob);
+                            const std::string vkind = spill ? (e == 0 ? "value_run_to_all_item_control" : "value_run_into_all_item") : (e == 0 ? "value_run_to_record_end_control" : "value_run_past_record_end");
+                            rep.count("tailstar." + vkind + (c.aOk ? (c.bOk ? ".both_ok" : ".ok_err") : (c.bOk ? ".err_ok" : ".both_err")));
+                            if (!c.fail) rep.ok();
+                            else rep.fail("C01.relayout.tailstar." + vkind + ".one_token." + c.cls + "." + classOf(pk, name),
+                                          "seed=" + std::to_string(env.seed) + " keyword=" + name + " record=" + std::to_string(tb.lines[li].rec) + " scalar_items=" + std::to_string(N) + " explicit=" + std::to_string(j) +
+                                          " a={... " + ta.back() + " /} b=written_out " + c.detail + " a_hex=" + hexTrunc(txa) + " b_hex=" + hexTrunc(txb));
+                        }
+                    }
                 }
             }
         }
@@ -1805,9 +1831,13 @@ int parseInChild(const std::string& path) {
     if (pid < 0) return 99;
     if (pid == 0) {
         struct rlimit rl; rl.rlim_cur = rl.rlim_max = (rlim_t) 3 << 30; setrlimit(RLIMIT_AS, &rl);
-        rl.rlim_cur = rl.rlim_max = 20; setrlimit(RLIMIT_CPU, &rl);
+        rl.rlim_cur = rl.rlim_max = 4; setrlimit(RLIMIT_CPU, &rl);
         int code = 1;
-        try { Outcome o = parsePath(path); code = o.ok ? 0 : 1; } catch (...) { code = 1; }
+        ParseContext ctx; ErrorGuard eg;
+        try { Deck d = P().parseFile(path, ctx, eg); code = 0; }
+        catch (const std::bad_alloc&) { code = 3; }          // memory used up is not a refusal
+        catch (const std::exception&) { code = 1; }
+        catch (...) { code = 1; }
         _exit(code);
     }
     int st = 0;
@@ -1818,6 +1848,7 @@ int parseInChild(const std::string& path) {
 
 void includeProbe(Reporter& rep, Env& env) {
     const int nDecks = env.thorough ? 400 : 40;
+    int neverEnds = 0;      // each costs the CPU limit of the child: two are evidence enough
     for (int c = 0; c < nDecks; ++c) {
         if (!env.timeLeft(0.35)) { rep.count("include.stopped_by_budget"); break; }
         vh::Rng rng(caseSeed(env.seed ^ 0x696e636c75646573ull, (uint64_t) c));
@@ -1910,7 +1941,9 @@ void includeProbe(Reporter& rep, Env& env) {
             vh::spit(rootPath, replaceAllStr(k.root, "@DIR@", dir));
             auto filesHex = [&]() { std::string s = " root_hex=" + hexTrunc(k.root, 900); for (const auto& f : k.files) s += " file[" + f.first + "]_hex=" + hexTrunc(f.second, 500); return s; };
             if (k.ref.empty()) {
+                if (neverEnds >= 2) { rep.count("include.recursive.not_run_after_never_ends"); fs::remove_all(dir, ec); continue; }
                 const int st = parseInChild(rootPath);
+                if (st != 0 && st != 1) ++neverEnds;
                 rep.count(std::string("include.recursive.") + (st == 1 ? "refused" : st == 0 ? "accepted" : "killed"));
                 if (st == 1) rep.ok();
                 else rep.fail("C01.relayout.include." + k.id + (st == 0 ? ".accepted" : ".never_ends"),
